@@ -1,3 +1,366 @@
-(* placeholder: theorems follow *)
-From CC Require Import Model.Network.
-Example C06_model_runs : True. Proof. exact I. Qed.
+(* C06 — port behaviour: driving-point impedance and Thevenin/Norton equivalents.
+   "The impedance reported between two nodes, or seen by an element, equals the voltage produced by a unit test
+   current injected between them with every independent source deactivated (ideal voltage sources shorted, current
+   sources opened, internal impedances kept); it is symmetric in the two nodes, independent of the reference node,
+   zero for identical nodes or across an ideal voltage source, follows jwL and 1/(jwC) over frequency, and obeys
+   series/parallel composition.  Together with the open-circuit voltage and the short-circuit current it is an exact
+   equivalent of the port: attaching any load Z_L gives V = Voc*Z_L/(Zth+Z_L), and Isc = Voc/Zth."
+   Statements only; every proof is [exact <lemma>] (Theory/PortThm.v, Theory/PortDel.v, Theory/PortCompose.v).
+   Model: Model/Port.v ([open_circuit_impedance], [element_impedance], [open_circuit_voltage], [short_circuit_current];
+   results [res (option K)], [None] = a non-finite float).
+   Vocabulary (Theory/PortThm.v):
+     [deactivated n]        = kp_net [] n : every branch through the library's zeroing maps with an empty keep list;
+     [probed n a b]         [deactivated n] plus the branch  b -> a  carrying current_source(probe_id, 1), reference node b;
+     [PortZ n a b z]        exists phi j, CircuitSpec (probed n a b) phi j /\ z = phi a - phi b;
+     [DrivenH n a b c phi j] KCL of n with a current c fed into a and drawn at b (kcl_sum = c*([a=node]-[b=node])) and the
+                            element laws of n with the source terms dropped ([hom_law]) — PortZ without the probe branch;
+     [ideal_source_between n a b]  some branch between a and b (either orientation) has [is_ideal_voltage_source];
+     [all_connected np]     every row of mna_matrix np has a non-zero entry (open_circuit_impedance deletes nothing);
+     [loaded n a b lid ZL]  n plus the branch  a -> b  carrying impedance(lid, ZL);  [load_branch a b lid ZL] that branch;
+     [single a b e]         the network of the one branch a -> b with element e, reference b;
+     [join n1 n2]           branches n1 ++ branches n2, reference of n1. *)
+From Coq Require Import List Bool ZArith NArith String.
+From CC Require Import Theory.Field Theory.Complex Theory.Labels Model.Network Model.Transformers Model.Port Theory.Spec
+  Theory.Mna Theory.MnaComplete Theory.Api Theory.Unique Theory.Linearity Theory.Invariance Model.Circuit
+  Theory.PortThm Theory.PortDel Theory.PortCompose.
+Import ListNotations.
+
+(* ================= the code's composition is the declarative probed network ================= *)
+
+(* open_circuitify_current_sources (short_circuitify_voltage_sources n []) [] succeeds on a valid network and is
+   [deactivated n]; it is literally C04's [keep_only []], whose result has every source term zero. *)
+Theorem C06_deactivation : forall (K : fops) (KOK : fops_ok K) (n : network K),
+  wf n -> deactivate n = Ok (deactivated n).
+Proof. exact deactivate_ok. Qed.
+Print Assumptions C06_deactivation.
+
+Theorem C06_deactivation_is_keep_only : forall (K : fops) (n : network K), deactivate n = keep_only [] n.
+Proof. exact deactivate_is_keep_only. Qed.
+Print Assumptions C06_deactivation_is_keep_only.
+
+Theorem C06_probe_id_unused : forall (K : fops) (n : network K), ~ In (probe_id n) (branch_ids n).
+Proof. exact probe_id_fresh. Qed.
+Print Assumptions C06_probe_id_unused.
+
+(* after the early exits the model runs [port_solve] on [probed n a b] (both validations succeed) *)
+Theorem C06_model_unfolds : forall (K : fops) (KOK : fops_ok K) (n : network K) (a b : label),
+  wf n -> a <> b ->
+  open_circuit_impedance n a b
+  = if ideal_source_between n a b then Ok (Some (f0 K)) else port_solve (probed n a b) a.
+Proof. exact oci_unfold. Qed.
+Print Assumptions C06_model_unfolds.
+
+(* PortZ says: drive the source-free network with a unit current (no probe branch, no reference node) *)
+Theorem C06_portz_driven : forall (K : fops) (KOK : fops_ok K) (n : network K) (a b : label) (z : K), wf n ->
+  (PortZ n a b z <-> exists phi jn, DrivenH n a b (f1 K) phi jn /\ z = fsub K (phi a) (phi b)).
+Proof. exact PortZ_iff. Qed.
+Print Assumptions C06_portz_driven.
+
+(* ================= C06_port: what open_circuit_impedance returns is the port impedance ================= *)
+
+(* Full strength: whenever the model returns a finite value — through either early exit, or through the solver,
+   with or without deleted rows — that value satisfies PortZ and is the only one that does. *)
+Theorem C06_port : forall (K : fops) (KOK : fops_ok K) (n : network K) (a b : label) (z : K),
+  wf n -> open_circuit_impedance n a b = Ok (Some z) ->
+  PortZ n a b z /\ (forall z', PortZ n a b z' -> z' = z).
+Proof. exact port_sound. Qed.
+Print Assumptions C06_port.
+
+(* When no row is deleted the probed network is moreover well-posed (all its potentials and flows are unique). *)
+Theorem C06_port_all_connected : forall (K : fops) (KOK : fops_ok K) (n : network K) (a b : label) (z : K),
+  wf n -> a <> b -> ideal_source_between n a b = false -> all_connected (probed n a b) = true ->
+  open_circuit_impedance n a b = Ok (Some z) ->
+  PortZ n a b z /\ WellPosed (probed n a b) /\ (forall z', PortZ n a b z' -> z' = z).
+Proof. exact port_all_connected. Qed.
+Print Assumptions C06_port_all_connected.
+
+(* element_impedance: the port of the element's nodes in the network with that element removed *)
+Theorem C06_element : forall (K : fops) (KOK : fops_ok K) (n : network K) (id : label) (z : K),
+  wf n -> element_impedance n id = Ok (Some z) ->
+  exists b m, get_branch (branches n) id = Some b /\ remove_element n id = Ok m
+    /\ branches m = remove_first b (branches n) /\ zero m = zero n /\ wf m
+    /\ open_circuit_impedance m (node1 b) (node2 b) = Ok (Some z)
+    /\ PortZ m (node1 b) (node2 b) z /\ (forall z', PortZ m (node1 b) (node2 b) z' -> z' = z).
+Proof. exact element_sound. Qed.
+Print Assumptions C06_element.
+
+(* ================= C06_zero_cases ================= *)
+
+Theorem C06_zero_identical_nodes : forall (K : fops) (KOK : fops_ok K) (n : network K) (a : label), wf n ->
+  open_circuit_impedance n a a = Ok (Some (f0 K)) /\ PortZ n a a (f0 K) /\ (forall z, PortZ n a a z -> z = f0 K).
+Proof. exact zero_identical. Qed.
+Print Assumptions C06_zero_identical_nodes.
+
+(* An ideal voltage source between the nodes is shorted by the deactivation: phi a = phi b, and it carries the
+   test current, so the specification holds without any further assumption. *)
+Theorem C06_zero_ideal_source : forall (K : fops) (KOK : fops_ok K) (n : network K) (a b : label),
+  wf n -> a <> b -> ideal_source_between n a b = true ->
+  open_circuit_impedance n a b = Ok (Some (f0 K)) /\ PortZ n a b (f0 K) /\ (forall z, PortZ n a b z -> z = f0 K).
+Proof. exact zero_ideal_source. Qed.
+Print Assumptions C06_zero_ideal_source.
+
+(* the form asked for: whatever solves the probed network has phi a = phi b *)
+Theorem C06_zero_cases : forall (K : fops) (KOK : fops_ok K) (n : network K) (a b : label),
+  ideal_source_between n a b = true ->
+  open_circuit_impedance n a b = Ok (Some (f0 K))
+  /\ (forall z, PortZ n a b z -> z = f0 K)
+  /\ (WellPosed (probed n a b) -> PortZ n a b (f0 K)).
+Proof. exact zero_ideal_all. Qed.
+Print Assumptions C06_zero_cases.
+
+(* ================= spec-level corollaries ================= *)
+
+Theorem C06_sym : forall (K : fops) (KOK : fops_ok K) (n : network K) (a b : label) (z : K),
+  wf n -> PortZ n a b z -> PortZ n b a z.
+Proof. exact PortZ_sym. Qed.
+Print Assumptions C06_sym.
+
+Theorem C06_sym_model : forall (K : fops) (KOK : fops_ok K) (n : network K) (a b : label) (z z' : K), wf n ->
+  open_circuit_impedance n a b = Ok (Some z) -> open_circuit_impedance n b a = Ok (Some z') -> z' = z.
+Proof. exact oci_sym. Qed.
+Print Assumptions C06_sym_model.
+
+(* the reference node of n is not even mentioned by the probed network *)
+Theorem C06_reground : forall (K : fops) (g : label) (n : network K) (a b : label),
+  probed (reground g n) a b = probed n a b.
+Proof. exact probed_reground. Qed.
+Print Assumptions C06_reground.
+
+Theorem C06_reground_portz : forall (K : fops) (g : label) (n : network K) (a b : label) (z : K),
+  PortZ (reground g n) a b z <-> PortZ n a b z.
+Proof. exact PortZ_reground. Qed.
+Print Assumptions C06_reground_portz.
+
+Theorem C06_reground_model : forall (K : fops) (KOK : fops_ok K) (g : label) (n : network K) (a b : label),
+  wf n -> In g (node_labels n) ->
+  open_circuit_impedance (reground g n) a b = open_circuit_impedance n a b.
+Proof. exact oci_reground. Qed.
+Print Assumptions C06_reground_model.
+
+(* two networks with the same skeleton (terminals, ids, admittances eY position by position; source values free) *)
+Theorem C06_sources_irrelevant : forall (K : fops) (KOK : fops_ok K) (n n' : network K) (a b : label) (z : K),
+  wf n -> skel n n' -> (PortZ n a b z <-> PortZ n' a b z).
+Proof. exact PortZ_skel. Qed.
+Print Assumptions C06_sources_irrelevant.
+
+Theorem C06_sources_scaled : forall (K : fops) (KOK : fops_ok K) (c : K) (n : network K) (a b : label) (z : K),
+  wf n -> (PortZ n a b z <-> PortZ (scale_net c n) a b z).
+Proof. exact PortZ_scale. Qed.
+Print Assumptions C06_sources_scaled.
+
+Theorem C06_sources_scaled_model : forall (K : fops) (KOK : fops_ok K) (c : K) (n : network K) (a b : label) (z z' : K),
+  wf n -> open_circuit_impedance n a b = Ok (Some z) ->
+  open_circuit_impedance (scale_net c n) a b = Ok (Some z') -> z' = z.
+Proof. exact oci_scale. Qed.
+Print Assumptions C06_sources_scaled_model.
+
+(* ---- composition ---- *)
+Theorem C06_single_element : forall (K : fops) (KOK : fops_ok K) (a b : label) (e : elem K) (y : K),
+  a <> b -> eY e = Some y -> y <> f0 K ->
+  PortZ (single a b e) a b (fdiv K (f1 K) y) /\ (forall z, PortZ (single a b e) a b z -> z = fdiv K (f1 K) y).
+Proof. exact PortZ_single. Qed.
+Print Assumptions C06_single_element.
+
+Theorem C06_series : forall (K : fops) (KOK : fops_ok K) (n1 n2 : network K) (a m b : label) (z1 z2 : K),
+  wf n1 -> wf n2 -> wf (join n1 n2) ->
+  (forall l, In l (endpoints n1) -> In l (endpoints n2) -> l = m) ->
+  In a (endpoints n1) -> ~ In b (endpoints n1) ->
+  PortZ n1 a m z1 -> PortZ n2 m b z2 -> PortZ (join n1 n2) a b (fadd K z1 z2).
+Proof. exact PortZ_series. Qed.
+Print Assumptions C06_series.
+
+Theorem C06_parallel : forall (K : fops) (KOK : fops_ok K) (n1 n2 : network K) (a b : label) (z1 z2 : K),
+  wf n1 -> wf n2 -> wf (join n1 n2) ->
+  (forall l, In l (endpoints n1) -> In l (endpoints n2) -> l = a \/ l = b) ->
+  In a (endpoints n1) -> In b (endpoints n1) -> fadd K z1 z2 <> f0 K ->
+  PortZ n1 a b z1 -> PortZ n2 a b z2 -> PortZ (join n1 n2) a b (fdiv K (fmul K z1 z2) (fadd K z1 z2)).
+Proof. exact PortZ_parallel. Qed.
+Print Assumptions C06_parallel.
+
+(* ---- over frequency: the branches transform_circuit emits (R a formally real field, Cx R its complex numbers) ---- *)
+Theorem C06_inductor : forall (R : fops) (ROK : fops_ok R)
+  (Rreal : forall x y : R, fadd R (fmul R x x) (fmul R y y) = f0 R -> x = f0 R /\ y = f0 R)
+  (c : comp R) (w L : R) (br : branch (Cx R)),
+  vget R c "L" = Ok L -> t_inductance R c w = Ok br -> node1 br <> node2 br -> fmul R w L <> f0 R ->
+  PortZ (single (node1 br) (node2 br) (el br)) (node1 br) (node2 br) (cim R (fmul R w L))
+  /\ (forall z, PortZ (single (node1 br) (node2 br) (el br)) (node1 br) (node2 br) z -> z = cim R (fmul R w L)).
+Proof. exact inductor_impedance. Qed.
+Print Assumptions C06_inductor.
+
+Theorem C06_capacitor : forall (R : fops) (ROK : fops_ok R)
+  (Rreal : forall x y : R, fadd R (fmul R x x) (fmul R y y) = f0 R -> x = f0 R /\ y = f0 R)
+  (c : comp R) (w Cv : R) (br : branch (Cx R)),
+  vget R c "C" = Ok Cv -> t_capacitor R c w = Ok br -> node1 br <> node2 br -> fmul R w Cv <> f0 R ->
+  PortZ (single (node1 br) (node2 br) (el br)) (node1 br) (node2 br) (fdiv (Cx R) (f1 (Cx R)) (cim R (fmul R w Cv)))
+  /\ (forall z, PortZ (single (node1 br) (node2 br) (el br)) (node1 br) (node2 br) z ->
+                z = fdiv (Cx R) (f1 (Cx R)) (cim R (fmul R w Cv))).
+Proof. exact capacitor_impedance. Qed.
+Print Assumptions C06_capacitor.
+
+(* ================= Thevenin / Norton ================= *)
+
+(* n well-posed with open-circuit solution (phi0, j0), Zth its port impedance, a load ZL with Zth + ZL <> 0 attached
+   under an unused id: the loaded network is well-posed again and every solution of it carries Voc/(Zth+ZL) through
+   the load, the load voltage being Voc*ZL/(Zth+ZL). *)
+Theorem C06_thevenin : forall (K : fops) (KOK : fops_ok K) (n : network K) (a b lid : label) (ZL Zth : K)
+  (phi0 : label -> K) (j0 : branch K -> K),
+  wf n -> WellPosed n -> CircuitSpec n phi0 j0 -> In a (node_labels n) -> In b (node_labels n) ->
+  PortZ n a b Zth -> fadd K Zth ZL <> f0 K -> ~ In lid (branch_ids n) ->
+  WellPosed (loaded n a b lid ZL)
+  /\ (forall phi j, CircuitSpec (loaded n a b lid ZL) phi j ->
+        j (load_branch a b lid ZL) = fdiv K (fsub K (phi0 a) (phi0 b)) (fadd K Zth ZL)
+        /\ fsub K (phi a) (phi b) = fdiv K (fmul K (fsub K (phi0 a) (phi0 b)) ZL) (fadd K Zth ZL)).
+Proof. exact thevenin_all. Qed.
+Print Assumptions C06_thevenin.
+
+(* the same on the values the library reports: Zth from open_circuit_impedance, Voc from open_circuit_voltage,
+   the load voltage from the bias-point solution of the loaded network *)
+Theorem C06_thevenin_model : forall (K : fops) (KOK : fops_ok K) (n : network K) (a b lid : label) (ZL z v : K),
+  wf n -> a <> b ->
+  open_circuit_impedance n a b = Ok (Some z) -> open_circuit_voltage n a b = Ok v ->
+  fadd K z ZL <> f0 K -> ~ In lid (branch_ids n) ->
+  exists s, solve_network (loaded n a b lid ZL) = Ok s
+            /\ get_voltage s lid = Ok (fdiv K (fmul K v ZL) (fadd K z ZL)).
+Proof. exact thevenin_model. Qed.
+Print Assumptions C06_thevenin_model.
+
+(* Norton: a short circuit across the port (ZL = 0) carries Voc/Zth *)
+Theorem C06_norton : forall (K : fops) (KOK : fops_ok K) (n : network K) (a b lid : label) (z v : K)
+  (phi : label -> K) (j : branch K -> K),
+  wf n -> a <> b -> open_circuit_voltage n a b = Ok v -> PortZ n a b z -> z <> f0 K ->
+  CircuitSpec (loaded n a b lid (f0 K)) phi j -> j (load_branch a b lid (f0 K)) = fdiv K v z.
+Proof. exact norton_short. Qed.
+Print Assumptions C06_norton.
+
+(* and that is what short_circuit_current reports *)
+Theorem C06_norton_model : forall (K : fops) (KOK : fops_ok K) (n : network K) (a b lid : label) (z i : K),
+  wf n -> a <> b ->
+  open_circuit_impedance n a b = Ok (Some z) -> short_circuit_current n a b = Ok (Some i) ->
+  z <> f0 K /\ forall phi j, CircuitSpec (loaded n a b lid (f0 K)) phi j -> j (load_branch a b lid (f0 K)) = i.
+Proof. exact norton_model_full. Qed.
+Print Assumptions C06_norton_model.
+
+(* ================= examples over CQ: the hypotheses are satisfiable, the values are the expected ones ================= *)
+Definition lb (z : Z) : label := [Z.to_N z].
+Definition n0 := lb 48. Definition n1 := lb 49. Definition n2 := lb 50. Definition n3 := lb 51. Definition n5 := lb 53.
+Definition q (a : Z) (b : positive) : CQ := cq a b 0 1.
+
+(* divider with an ideal source: V = 10 V ideal 1-0, R1 = 10 (1-2), R2 = 20 (2-0) *)
+Definition divider : network CQ :=
+  {| branches := [ Build_branch n1 n0 (voltage_source (lb 86) (q 10 1) (q 0 1));
+                   Build_branch n1 n2 (resistor [82; 49]%N (q 10 1));
+                   Build_branch n2 n0 (resistor [82; 50]%N (q 20 1)) ];
+     zero := n0 |}.
+
+Example C06_ex_divider_wf : wfb divider = true. Proof. vm_compute. reflexivity. Qed.
+(* the ideal source is shorted, not opened: 10 || 20 = 20/3, not 20 *)
+Example C06_ex_divider : open_circuit_impedance divider n2 n0 = Ok (Some (q 20 3)). Proof. vm_compute. reflexivity. Qed.
+Example C06_ex_divider_hyps :
+  ideal_source_between divider n2 n0 = false /\ all_connected (probed divider n2 n0) = true /\ n2 <> n0.
+Proof. split; [vm_compute; reflexivity|]. split; [vm_compute; reflexivity|discriminate]. Qed.
+Example C06_ex_divider_portz : PortZ divider n2 n0 (q 20 3) /\ WellPosed (probed divider n2 n0).
+Proof. destruct (wfb_ok divider C06_ex_divider_wf) as [WF _]. destruct C06_ex_divider_hyps as [H1 [H2 H3]].
+  destruct (C06_port_all_connected CQ CQ_ok divider n2 n0 _ WF H3 H1 H2 C06_ex_divider) as [P [W _]]. split; assumption. Qed.
+Example C06_ex_probe_id : probe_id divider = [112; 114; 111; 98; 101]%N. Proof. vm_compute. reflexivity. Qed.
+Example C06_ex_probe_id_taken :
+  probe_id {| branches := [Build_branch n1 n0 (resistor [112; 114; 111; 98; 101]%N (q 1 1));
+                           Build_branch n1 n0 (resistor [112; 114; 111; 98; 101; 95]%N (q 1 1))]; zero := n0 |}
+  = [112; 114; 111; 98; 101; 95; 95]%N.
+Proof. vm_compute. reflexivity. Qed.
+
+(* a node hanging on an open circuit: its row is deleted, the value is unchanged *)
+Definition divider_open : network CQ :=
+  {| branches := branches divider ++ [Build_branch n2 n5 (open_circuit (lb 79))]; zero := n0 |}.
+Example C06_ex_deleted_row :
+  wfb divider_open = true /\ all_connected (probed divider_open n2 n0) = false
+  /\ open_circuit_impedance divider_open n2 n0 = Ok (Some (q 20 3))
+  /\ open_circuit_impedance divider_open n5 n0 = Ok None.
+Proof. repeat split; vm_compute; reflexivity. Qed.
+
+(* the shipped example_network_10 reduced: R3 = 30 (3-0), R5 = 50 (2-3), U2 = 2 V ideal (2-1); port (2,0) sees 80 *)
+Definition ex10 : network CQ :=
+  {| branches := [ Build_branch n3 n0 (resistor [82; 51]%N (q 30 1));
+                   Build_branch n2 n3 (resistor [82; 53]%N (q 50 1));
+                   Build_branch n2 n1 (voltage_source [85; 50]%N (q 2 1) (q 0 1)) ];
+     zero := n0 |}.
+Example C06_ex_network_10 :
+  wfb ex10 = true /\ open_circuit_impedance ex10 n2 n0 = Ok (Some (q 80 1))
+  /\ open_circuit_impedance ex10 n1 n0 = Ok (Some (q 80 1)).
+Proof. repeat split; vm_compute; reflexivity. Qed.
+
+(* the two early exits *)
+Example C06_ex_zero_cases :
+  open_circuit_impedance divider n2 n2 = Ok (Some (q 0 1))
+  /\ ideal_source_between divider n1 n0 = true /\ n1 <> n0
+  /\ open_circuit_impedance divider n1 n0 = Ok (Some (q 0 1))
+  /\ open_circuit_impedance divider n0 n1 = Ok (Some (q 0 1)).
+Proof. repeat split; try (vm_compute; reflexivity). discriminate. Qed.
+
+(* symmetry, reference node, source values *)
+Example C06_ex_sym : open_circuit_impedance divider n0 n2 = Ok (Some (q 20 3)). Proof. vm_compute. reflexivity. Qed.
+Example C06_ex_reground :
+  lmem n2 (node_labels divider) = true
+  /\ open_circuit_impedance (reground n2 divider) n2 n0 = Ok (Some (q 20 3)).
+Proof. split; vm_compute; reflexivity. Qed.
+Example C06_ex_scaled : open_circuit_impedance (scale_net (cq 3 1 (-2) 1) divider) n2 n0 = Ok (Some (q 20 3)).
+Proof. vm_compute. reflexivity. Qed.
+Example C06_ex_element_impedance :
+  element_impedance divider [82; 50]%N = Ok (Some (q 10 1))          (* R2 sees R1 through the shorted source *)
+  /\ element_impedance divider [82; 49]%N = Ok (Some (q 20 1))
+  /\ element_impedance divider (lb 86) = Ok (Some (q 30 1))
+  /\ element_impedance divider (lb 88) = Err EKeyError.
+Proof. repeat split; vm_compute; reflexivity. Qed.
+
+(* Thevenin: Voc = 20/3, Zth = 20/3; a load of 5 sees 20/7; Norton: Isc = 1 *)
+Example C06_ex_thevenin_hyps :
+  open_circuit_voltage divider n2 n0 = Ok (q 20 3)
+  /\ fadd CQ (q 20 3) (q 5 1) <> f0 CQ
+  /\ lmem (lb 76) (branch_ids divider) = false
+  /\ uniqb divider = true /\ solvedb divider = true.
+Proof. split; [vm_compute; reflexivity|]. split; [discriminate|]. repeat split; vm_compute; reflexivity. Qed.
+Example C06_ex_thevenin :
+  exists s, solve_network (loaded divider n2 n0 (lb 76) (q 5 1)) = Ok s /\ get_voltage s (lb 76) = Ok (q 20 7).
+Proof. destruct (wfb_ok divider C06_ex_divider_wf) as [WF _]. destruct C06_ex_thevenin_hyps as [HV [NZ [FR _]]].
+  destruct (C06_thevenin_model CQ CQ_ok divider n2 n0 (lb 76) (q 5 1) _ _ WF (proj2 (proj2 C06_ex_divider_hyps))
+              C06_ex_divider HV NZ (proj1 (lmem_false _ _) FR)) as [s [Hs Hg]].
+  exists s. split; [exact Hs|]. rewrite Hg. vm_compute. reflexivity. Qed.
+Example C06_ex_norton : short_circuit_current divider n2 n0 = Ok (Some (q 1 1)). Proof. vm_compute. reflexivity. Qed.
+Example C06_ex_scc_cases :
+  short_circuit_current divider n2 n2 = Err EZeroDivision      (* int 0 / int 0 *)
+  /\ short_circuit_current divider n1 n0 = Ok None.            (* numpy V / 0 = inf *)
+Proof. repeat split; vm_compute; reflexivity. Qed.
+
+(* series and parallel: 10 between 1 and 2, 20 between 2 and 0 resp. 1 and 0 *)
+Definition one (a b : label) (id : label) (r : CQ) : network CQ :=
+  {| branches := [Build_branch a b (resistor id r)]; zero := b |}.
+Example C06_ex_series_hyps :
+  wfb (one n1 n2 (lb 65) (q 10 1)) = true /\ wfb (one n2 n0 (lb 66) (q 20 1)) = true
+  /\ wfb (join (one n1 n2 (lb 65) (q 10 1)) (one n2 n0 (lb 66) (q 20 1))) = true
+  /\ open_circuit_impedance (one n1 n2 (lb 65) (q 10 1)) n1 n2 = Ok (Some (q 10 1))
+  /\ open_circuit_impedance (one n2 n0 (lb 66) (q 20 1)) n2 n0 = Ok (Some (q 20 1))
+  /\ open_circuit_impedance (reground n0 (join (one n1 n2 (lb 65) (q 10 1)) (one n2 n0 (lb 66) (q 20 1)))) n1 n0
+     = Ok (Some (q 30 1)).
+Proof. repeat split; vm_compute; reflexivity. Qed.
+Example C06_ex_series_nodes :
+  (forall l, In l (endpoints (one n1 n2 (lb 65) (q 10 1))) -> In l (endpoints (one n2 n0 (lb 66) (q 20 1))) -> l = n2)
+  /\ In n1 (endpoints (one n1 n2 (lb 65) (q 10 1))) /\ ~ In n0 (endpoints (one n1 n2 (lb 65) (q 10 1))).
+Proof. split; [|split].
+  - intros l H1 H2. simpl in H1, H2.
+    destruct H1 as [<-|[<-|[]]]; destruct H2 as [H|[H|[]]]; try reflexivity; try discriminate H.
+  - left. reflexivity.
+  - intros [H|[H|[]]]; discriminate. Qed.
+Example C06_ex_parallel_hyps :
+  wfb (join (one n1 n0 (lb 65) (q 10 1)) (one n1 n0 (lb 66) (q 20 1))) = true
+  /\ fadd CQ (q 10 1) (q 20 1) <> f0 CQ
+  /\ open_circuit_impedance (join (one n1 n0 (lb 65) (q 10 1)) (one n1 n0 (lb 66) (q 20 1))) n1 n0
+     = Ok (Some (fdiv CQ (fmul CQ (q 10 1) (q 20 1)) (fadd CQ (q 10 1) (q 20 1)))).
+Proof. split; [vm_compute; reflexivity|]. split; [discriminate|vm_compute; reflexivity]. Qed.
+
+(* jwL: an inductance of 2 H between 1 and 0 at w = 3 is seen as 6j *)
+Definition coil : comp Qcops :=
+  @Build_comp Qcops KInductance (lb 76) [n1; n0] [(lbl "L", qc 2 1)] [] (qc 1 1, qc 0 1) [].
+Example C06_ex_inductor :
+  vget Qcops coil "L" = Ok (qc 2 1)
+  /\ t_inductance Qcops coil (qc 3 1) = Ok (Build_branch n1 n0 (impedance (lb 76) (cim Qcops (qc 6 1))))
+  /\ open_circuit_impedance (single n1 n0 (impedance (lb 76) (cim Qcops (qc 6 1)))) n1 n0 = Ok (Some (cq 0 1 6 1)).
+Proof. repeat split; vm_compute; reflexivity. Qed.
